@@ -118,6 +118,7 @@ type caller struct {
 	// what the caller last wrote (to detect writes by the component)
 	lastH rtp.Header
 	lastP []byte
+	lastR []byte
 	held  []held // run A: every fresh allocation with its expected content
 	wrote []int64
 }
@@ -237,6 +238,9 @@ func (cl *caller) scribble() []string {
 // final check: nothing wrote into caller memory after the calls returned.
 func (cl *caller) final(n int) {
 	if cl.reuse {
+		if cl.lastR != nil && !bytes.Equal(cl.lastR, cl.rd) {
+			cl.wrote = append(cl.wrote, int64(len(cl.rd)))
+		}
 		if n > 0 && (!sameHeader(cl.hdr, &cl.lastH) || !bytes.Equal(cl.pay[:len(cl.lastP)], cl.lastP)) {
 			cl.wrote = append(cl.wrote, int64(n))
 		}
@@ -277,6 +281,7 @@ func (cl *caller) scribbleRead(n int) []string {
 	for i := range cl.rd {
 		cl.rd[i] = byte(0x51 + cl.gen*5 + i*3)
 	}
+	cl.lastR = append(cl.lastR[:0], cl.rd...)
 
 	return []string{cq.C("Scribble", cq.Z(locRead), cq.Z(intern("R|"+string(cl.rd[:n]))))}
 }
@@ -453,8 +458,32 @@ func genCase(r *rand.Rand, comp string) (c13Case, []string) {
 	case "FlexFec":
 		c.Opt = [2]int{2 + r.Intn(5), 1 + r.Intn(3)}
 		c.Pkts = genPkts(r, c.Opt[0]*(1+r.Intn(3))+r.Intn(2), false, true)
-	case "DumpSender":
+	case "DumpSender", "DumpReceiver":
 		c.Pkts = genPkts(r, 1+r.Intn(6), false, false)
+	case "NackRtx":
+		n := 2 + r.Intn(8)
+		c.Pkts = genPkts(r, n, false, false)
+		for i, ne := 0, 1+r.Intn(4); i < ne; i++ {
+			at := 1 + r.Intn(n)
+			c.Evs = append(c.Evs, ev{At: at, K: r.Intn(at)})
+		}
+		sortEvs(c.Evs)
+	case "LeakyBucket", "Pacing", "StatsOut", "StatsIn", "Rtpfb":
+		n := 1 + r.Intn(10)
+		c.Pkts = genPkts(r, n, false, comp == "Rtpfb")
+		for i, ne := 0, r.Intn(3); i < ne; i++ {
+			c.Evs = append(c.Evs, ev{At: 1 + r.Intn(n)})
+		}
+		sortEvs(c.Evs)
+	case "JBInterceptor":
+		c.Pkts = genPkts(r, 51+r.Intn(8), false, true)
+	case "JBPush":
+		c.Pkts = genPkts(r, 2+r.Intn(9), true, true)
+	case "TwccSender":
+		c.Pkts = genPkts(r, 1+r.Intn(12), false, true)
+		for i := range c.Pkts {
+			c.Pkts[i].Ext = 2
+		}
 	default:
 		panic("genCase: " + comp)
 	}
@@ -484,7 +513,11 @@ func sortEvs(e []ev) {
 	}
 }
 
-var quickComps = []string{"NackCopy", "NackNoCopy", "FlexFec", "DumpSender"}
+var quickComps = []string{"NackCopy", "NackRtx", "NackNoCopy", "FlexFec", "LeakyBucket", "Pacing", "DumpSender", "DumpReceiver",
+	"StatsOut", "StatsIn", "JBInterceptor", "JBPush", "TwccSender", "Rtpfb"}
+
+// share of cases per component (out of 8): the long jitter-buffer histories are fewer
+var weight = map[string]int{"JBInterceptor": 2}
 
 func main() {
 	o := cq.ParseFlags()
@@ -518,6 +551,9 @@ func main() {
 	var jobs []job
 	for i := 0; i < per; i++ {
 		for _, comp := range quickComps {
+			if w, ok := weight[comp]; ok && i%8 >= w {
+				continue
+			}
 			c, b := genCase(r, comp)
 			jobs = append(jobs, job{c, b})
 		}
